@@ -159,13 +159,32 @@ class IndCfg:
         if self.kind == "Amorph":
             from hexital.analysis import MOVEMENT_MAP, PATTERN_MAP
 
-            kw["analysis"] = {**MOVEMENT_MAP, **PATTERN_MAP}[self.fn]
+            kw["analysis"] = self.user_callable() or {**MOVEMENT_MAP, **PATTERN_MAP}[self.fn]
         return cls(**kw)
+
+    def user_callable(self):
+        """extra["_user_fn"] = a name: the analysis is a function WRITTEN BY THE USER that happens to be called
+        like a built-in one (`rising`, `doji`, ...) but computes something else -- here what the built-in
+        `self.fn` computes, so the specification knows its meaning.  A callable is used as given, whatever
+        its name."""
+        alias = (self.extra or {}).get("_user_fn")
+        if not alias:
+            return None
+        from hexital.analysis import MOVEMENT_MAP, PATTERN_MAP
+
+        real = {**MOVEMENT_MAP, **PATTERN_MAP}[self.fn]
+
+        def user_fn(**kwargs):
+            return real(**kwargs)
+
+        user_fn.__name__ = alias
+        user_fn.__qualname__ = alias
+        return user_fn
 
     def as_dict(self):
         if self.kind == "Amorph":
             # analysis arguments go under "args" ("indicator" at the top level names a class)
-            d = {"analysis": self.fn, "args": self.analysis_args()}
+            d = {"analysis": self.user_callable() or self.fn, "args": self.analysis_args()}
             d.update({k: v for k, v in self.kwargs(standalone=False).items()
                       if k not in self.analysis_args()})
             return d
